@@ -356,6 +356,27 @@ class BoolVarGuard:
     def pass_edges(self, model, chain, view):
         eq = EqGuard(self.name, self.class_a, self.class_b).pass_edges(model, chain, view)
         edges = []
+        # the same search written as `xs.iter().any(|x| a(x) == b)`: the test's true edge passes
+        for b, cond, _ in switch_conds(view):
+            if cond.kind != "call" or not cond.callee.endswith("as std::iter::Iterator>::any") or len(cond.term["args"]) != 2:
+                continue
+            hit = False
+            for o in view.origins_of_operand(cond.term["args"][1], at=view.at_term(cond.block)):
+                if o.kind != "closure" or o.a not in model.fnsrc:
+                    continue
+                cv = model.view(o.a)
+                cb = int(o.b.rsplit(":bb", 1)[1])
+                cchain = tuple(chain) + ((view.path, cb, "closure"),)
+                for xb, xt in cv.iter_calls():
+                    if not re.search(r"as std::cmp::PartialEq(<.*>)?>::eq$", mname(xt)) or len(xt["args"]) != 2:
+                        continue
+                    oa = resolve(model, cchain, cv, cv.origins_of_operand(xt["args"][0], at=cv.at_term(xb)), elems=True)
+                    ob = resolve(model, cchain, cv, cv.origins_of_operand(xt["args"][1], at=cv.at_term(xb)), elems=True)
+                    if (self.class_a(oa) and self.class_b(ob)) or (self.class_a(ob) and self.class_b(oa)):
+                        hit = True
+            if hit:
+                te, fe = cmp_true_false_edges(view, b, cond)
+                edges += fe if cond.neg else te
         if not eq:
             return edges
         for b, cond, _ in switch_conds(view):
